@@ -1,0 +1,21 @@
+//go:build verif
+
+package presence
+
+import (
+	"runtime"
+
+	"github.com/emitter-io/emitter/internal/message"
+)
+
+// VerifBarrier returns once every notification queued before the call has been published:
+// it pushes a no-op notification (an ssid nobody can subscribe to) through the real queue;
+// the single consumer handles notifications one after the other, so when it has taken the
+// no-op, every earlier notification has been sent.
+func (s *Service) VerifBarrier() {
+	s.queue <- &Notification{Ssid: message.Ssid{0, 1, 2, 3}, Event: EventTypeStatus}
+	for len(s.queue) > 0 {
+		runtime.Gosched()
+	}
+	// the consumer may still be inside send() of the no-op itself, which touches nothing observable
+}
